@@ -114,6 +114,10 @@ func (rsEngine) Run(prop string, seed uint64, tier string, replay *core.Schedule
 		s.execBlock(&Step{Op: "block", DtS: 900})
 	}
 	sched := &core.Schedule{Engine: "relaysim", Property: prop, Seed: seed, Tier: tier, Config: core.Enc(cfg)}
+	if replay == nil && tier == "thorough" && seed%2 == 0 {
+		// the thorough tier also runs long histories (the configuration records the length)
+		cfg.Steps *= 3
+	}
 	n := cfg.Steps
 	if replay != nil {
 		n = len(replay.Steps)
